@@ -1,7 +1,8 @@
 """C15 — hydroelastic contact polygons (structural clauses)."""
 from . import scopes
 from ..core.report import DOMAIN_D
-from ..rules import generic2, buffers, hydro, sides, unpack, misc2
+from .common import e2
+from ..rules import frame, generic2, buffers, hydro, sides, unpack, misc2
 
 HY = "distance3d.hydroelastic_contact."
 MODS = {HY + "_tetrahedron_intersection", HY + "_halfplanes", HY + "_forces", HY + "_interface", HY + "_barycentric_transform"}
@@ -32,6 +33,8 @@ def run(idx, rep, tier):
     misc2.r_stiffness_chain(idx, rep)
     hydro.r_contactforce(idx, rep)
     hydro.r_sharedpose(idx, rep)      # two bodies sharing one pose array: the second query sees a frozen relative pose, polygons leave their tetrahedra
+    frame.r_frame(idx, rep, e2(idx), modules={"distance3d.hydroelastic_contact._contact_surface", "distance3d.hydroelastic_contact._tetrahedron_intersection", "distance3d.hydroelastic_contact._interface"}, floor=10)      # contact planes / polygons handed out in the world frame
+    hydro.r_allfaces(idx, rep)
     hydro.r_hpcover(idx, rep)      # a polygon that is not clipped by one half-plane leaves its tetrahedron and over-estimates the force on one side only
     misc2.r_hplayout(idx, rep)
     misc2.r_anglesort(idx, rep)
